@@ -520,10 +520,11 @@ fn programs(args: &Args, rep: &mut Report) {
             if bs.capacity() < bs.len() {
                 rep.violate("C14", format!("C14/string/{}/capacity-below-len", n), String::new());
             }
-            if opi % 8 == 0 {
+            {
                 for (st, copy) in &leaked {
                     if *st != copy.as_str() {
                         rep.violate("C14", "C14/string/into_bump_str/leaked-str-changed", String::new());
+                        rep.violate("C02", "C02/into_bump_str/contents-of-the-returned-str-changed-by-a-later-operation", String::new());
                     }
                 }
                 for (v, byte) in &neighbours {
